@@ -59,7 +59,8 @@ def trees(draw):
                 edges.append([a, b])            # b requires a
     return dict(top=draw(st.sampled_from(['pure', 'nestable'])), kinds=kinds,
                 parents=parents, edges=edges,
-                hkeys=[draw(st.integers(0, 15)) for _ in range(n)])
+                hkeys=[draw(st.integers(0, 15)) for _ in range(n)],
+                verbose=draw(st.integers(0, 4)) == 0)
 
 
 def strategy(tier):
@@ -118,7 +119,7 @@ def evaluate(case):
         else:
             expected[i] = before[i]
     with quiet():
-        first = objs[0].sanitize()
+        first = objs[0].sanitize(verbose=True) if case.get('verbose') else objs[0].sanitize()
     after = {i: {k for k in range(n) if objs[k] in objs[i].required} for i in range(1, n)}
     extra = {i: len(objs[i].required) - len(after[i]) for i in range(1, n)}
     for i in range(1, n):
